@@ -92,6 +92,11 @@ def g3_buffer_stores(F, S):
                 if pl["proj"] and pl["proj"][-1]["k"] == "field" and pl["ty"].startswith("std::boxed::Box<["):
                     S.bad("G3", "buffer-restore", "%s:%s" % (f.label, pl["proj"][-1]["name"]),
                           "%s stores a new buffer into field `%s` after construction: the window can be re-allocated with another length" % (f.label, pl["proj"][-1]["name"]), loc(st["span"]))
+                if len(pl["proj"]) == 1 and pl["proj"][0]["k"] == "deref" and f.self_struct and f.name != "new" \
+                        and any(x["ty"]["s"].startswith("std::boxed::Box<[") for x in (F.struct_fields(f.self_struct) or [])) \
+                        and str(pl.get("ty", "")).endswith(f.self_struct):
+                    # `*self = other`: replaces the window together with everything else
+                    S.bad("G3", "whole-self-store", f.label, "%s assigns a whole new value to `*self`: the window buffer is replaced after construction (its length need not be the period any more)" % f.label, loc(st["span"]))
                 rv = st["rv"]
                 if rv["k"] == "ref" and rv["mut"]:
                     p2 = rv["place"]
